@@ -1112,11 +1112,11 @@ def gen_kpiece(rng):
     if rng.chance(1, 25):
         starts = [[hi[0] + 1.0] + [lo[i] for i in range(1, n)]]     # no valid start at all
     prob = {"n": n, "lo": lo, "hi": hi, "boxes": boxes, "starts": starts, "goal": pt(),
-            "res": rng.choice([0.01, 0.02, 0.05, 0.1]), "thr": rng.choice([0.05, 0.1, 0.2, 0.02]),
+            "res": rng.choice([0.01, 0.02, 0.05, 0.1]), "thr": rng.choice([0.05, 0.1, 0.2, 0.02, 0.01, 0.005]),
             "range": rng.choice([0.0, 0.1, 0.3, 0.6, 2.0]), "goalbias": rng.choice([0.05, 0.2, 0.5, 0.0, 1.0]),
             "bf": rng.choice([0.9, 0.5, 1.0, 0.1]), "fsf": rng.choice([0.5, 1.0, 0.1, 0.9]),
             "mvf": rng.choice([0.2, 0.05, 0.5, 0.9, 1.0]), "seeds": [rng.below(1 << 30) + 1 for _ in range(3)],
-            "iters": rng.choice([0, 3, 10, 25, 60, 120])}
+            "iters": rng.choice([0, 3, 10, 25, 60, 120, 200])}
     return prob
 
 
@@ -1740,6 +1740,15 @@ def run(ck):
     ck.assumptions += ["Discretization: a Motion* is added once; coordinates have `dim` entries; selectMotion is not called on an empty "
                        "discretization; the score is changed only right before updateCell(); importances are not NaN (the functor is "
                        "then a strict weak order)"]
+    ck.rule += ("; engine 3 (KPIECE1): planning problems on R^2 / R^3 box environments (valid, out-of-bounds and in-obstacle starts, "
+                "goal bias 0..1, border fraction, failed-expansion factor, minValidPathFraction 0.05..1, 0-200 iterations); non-trivial "
+                "if the run both keeps a partially valid motion (lastValid) and rejects a motion")
+    ck.trusted += ["harness/kpiece.cpp: recording wrappers around the space's default sampler, the GoalState and DiscreteMotionValidator; "
+                   "opened `private` of KPIECE1.h (disc_, rng_); the planner's rng_ and disc_.rng_ are reseeded before solve(); in R^3 an "
+                   "orthogonal projection on the first two components (extent/20 cells) replaces the random default projection",
+                   "KPIECE1 model side: the recorded oracle answers are replayed; both random streams are recomputed with the RNG model of C20; "
+                   "the oracle recomputes DiscreteMotionValidator's three-argument answer, the projection coordinates and goal distances itself"]
+    ck.assumptions += ["KPIECE1: GoalSampleableRegion goal (GoalState); iteration-count termination condition (one evaluation per loop turn)"]
     ck.lean_build(LEAN_TARGETS)
     ck.audit(roots=["Drv.Grid", "Drv.Discretization", "Drv.KPIECE1"])
     if ck.tier == "thorough" and ck.lean_ok:
@@ -1804,7 +1813,7 @@ def run(ck):
         for fn in sorted(os.listdir(cdir)) if os.path.isdir(cdir) else []:
             if fn.startswith("kpiece-") and fn.endswith(".json"):
                 kjobs.append((json.load(open(os.path.join(cdir, fn))), "corpus"))
-        for i in range(90 if quick else 900):
+        for i in range(110 if quick else 1100):
             kjobs.append((gen_kpiece(ck.rng.fork("kpiece%d" % i)), "random"))
         bad = 0
         for a in range(0, len(kjobs), chunk):
@@ -1902,7 +1911,10 @@ MANIFEST = {
             "operations (it obeys the grid protocol; every stored motion sits in exactly the cell of its coordinate; no empty cell "
             "stays; the GridB invariants and tops-are-best hold throughout; selectMotion returns a stored motion and reaches the top "
             "of an empty queue only through the repaired topInternal fallback); the real template is driven in lock-step "
-            "(bit-exact doubles, heap layouts) with a bookkeeping oracle.",
+            "(bit-exact doubles, heap layouts) with a bookkeeping oracle. Round 3: geometric::KPIECE1::solve modelled on top of it "
+            "(tree invariant with the lastValid edge justification, real solutions only, KPIECE1 obeys the Discretization protocol, "
+            "selectMotion never meets an empty discretization, for every script and interruption point); the real planner runs in "
+            "lock-step on R^2/R^3 box environments (full tree, cell table, path, status) with an oracle that recomputes the validator.",
     "note": "Trusted: Lean kernel, the three standard axioms, the hand-written model outside the scripts the correspondence explored, "
             "the harness, the reused C11 heap model. Histories follow the user protocol of KPIECE's Discretization; tops-are-minima "
             "is checked by the oracle and the correspondence (the heap-order theorems belong to C11).",
